@@ -194,6 +194,83 @@ pub(crate) fn h_sort_new_optional_items() {
     }
 }
 
+/// module-level IF_DATA and USER_RIGHTS (plain Vecs, not reordered in memory) next to one placed UNIT:
+/// placed elements keep their relative output order, new ones go directly behind the last placed one of their kind
+fn sort_new_unnamed_lists(max_if: u32, max_ur: u32) {
+    let mut module = Module::new(String::from("m"), String::new());
+    let n_if = vrt_choice(max_if + 1) as usize;
+    let n_ur = vrt_choice(max_ur + 1) as usize;
+    let mut olds: Vec<u32> = Vec::new();       // old uids: [if_data..., user_rights..., unit]
+    for _ in 0..(n_if + n_ur) {
+        let is_new = vrt_choice(2) == 1;
+        let uid = if is_new { 0 } else { vrt_any_u32() };
+        vrt_assume(is_new | ((uid != 0) & (uid < 0x8000_0000)));
+        for j in 0..olds.len() { vrt_assume(is_new | (olds[j] != uid)); }
+        olds.push(uid);
+    }
+    let u_unit = vrt_any_u32();
+    vrt_assume((u_unit != 0) & (u_unit < 0x8000_0000));
+    for j in 0..olds.len() { vrt_assume(olds[j] != u_unit); }
+    olds.push(u_unit);
+    for i in 0..n_if {
+        let mut x = IfData::new();
+        x.get_layout_mut().uid = olds[i];
+        module.if_data.push(x);
+    }
+    for i in 0..n_ur {
+        let mut x = UserRights::new(name_of(b'a' + i as u8));
+        x.get_layout_mut().uid = olds[n_if + i];
+        module.user_rights.push(x);
+    }
+    module.unit.push(mk_unit(b'a', b'0', u_unit, 1));
+    let mut project = Project::new(String::from("p"), String::new());
+    project.module.push(module);
+    let mut file = A2lFile::new(project);
+    sort_new_items(&mut file);
+    let m = &file.project.module[0];
+    vrt_check(m.if_data.len() == n_if && m.user_rights.len() == n_ur && m.unit.len() == 1, "C15 sort_new_items keeps every element");
+    let mut nu: Vec<u32> = Vec::new();
+    for i in 0..n_if { nu.push(m.if_data[i].get_layout().uid); }
+    for i in 0..n_ur { nu.push(m.user_rights[i].get_layout().uid); }
+    nu.push(m.unit[0].get_layout().uid);
+    let total = n_if + n_ur + 1;
+    for a in 0..total {
+        for b in 0..total {
+            if olds[a] != 0 && olds[b] != 0 && olds[a] < olds[b] {
+                vrt_check(before(nu[a], nu[b]), "C15 relative order of placed elements (IF_DATA, USER_RIGHTS, UNIT) is unchanged");
+            }
+        }
+    }
+    // per kind: every new element sits directly behind the last placed element of its kind
+    for kind in 0..2 {
+        let (lo, hi) = if kind == 0 { (0, n_if) } else { (n_if, n_if + n_ur) };
+        let mut last_placed: Option<usize> = None;
+        for i in lo..hi {
+            if olds[i] != 0 {
+                match last_placed { Some(l) if olds[l] > olds[i] => {}, _ => last_placed = Some(i) }
+            }
+        }
+        for i in lo..hi {
+            if olds[i] == 0 {
+                match last_placed {
+                    Some(l) => {
+                        vrt_check(before(nu[l], nu[i]), "C15 a new unnamed element comes after the last placed element of its kind");
+                        for o in 0..total {
+                            if olds[o] != 0 && o != l {
+                                vrt_check(!(before(nu[l], nu[o]) && before(nu[o], nu[i])), "C15 nothing placed stands between the last placed element of a kind and a new one");
+                            }
+                        }
+                    }
+                    None => vrt_check(nu[i] == 0, "C15 a new element of a kind without placed elements stays at the end"),
+                }
+            }
+        }
+    }
+    vrt_cover(n_if == max_if as usize && n_ur == max_ur as usize, "full unnamed lists");
+}
+pub(crate) fn h_sort_new_unnamed_lists_s() { sort_new_unnamed_lists(2, 1); }
+pub(crate) fn h_sort_new_unnamed_lists() { sort_new_unnamed_lists(3, 2); }
+
 // ------------------------------------------------------------------ C14: sort() is a pure reordering
 
 pub(crate) fn h_sort_full_objectlist() {
